@@ -17,6 +17,7 @@ import Driver.Mp4
 import Driver.TagCodec2
 import Driver.Id3File
 import Driver.ApeFile
+import Driver.Iff
 open Driver
 
 def dispatch (line : String) : String :=
@@ -42,6 +43,7 @@ def dispatch (line : String) : String :=
     | "tagc2" => tagc2Op a
     | "id3f" => id3fOp a
     | "apef" => apefOp a
+    | "iff" => iffOp a
     | "flacinfo" => flacInfoOp a
     | "ping" => "pong"
     | _ => "bad-op"
